@@ -111,6 +111,8 @@ class SignatureVectorizer(BaseEstimator, TransformerMixin):
             self.s_ = None
             self.out_dim_ = iisignature.siglength(self.in_dim_, self.truncation_level)
 
+        return self
+
     def transform(self, X):
         """
         Parameters
